@@ -117,6 +117,9 @@ func NewBr(target *Block) *TermBr {
 
 // Succs returns the successor basic blocks of the terminator.
 func (term *TermBr) Succs() []*Block {
+	// Recompute the successors on every call; the branch targets may have been
+	// changed (e.g. through Operands) since the last call.
+	term.Successors = nil
 	// Cache successors if not present.
 	if term.Successors == nil {
 		term.Successors = []*Block{term.Target.(*Block)}
@@ -167,6 +170,9 @@ func NewCondBr(cond value.Value, targetTrue, targetFalse *Block) *TermCondBr {
 
 // Succs returns the successor basic blocks of the terminator.
 func (term *TermCondBr) Succs() []*Block {
+	// Recompute the successors on every call; the branch targets may have been
+	// changed (e.g. through Operands) since the last call.
+	term.Successors = nil
 	// Cache successors if not present.
 	if term.Successors == nil {
 		term.Successors = []*Block{term.TargetTrue.(*Block), term.TargetFalse.(*Block)}
@@ -217,6 +223,9 @@ func NewSwitch(x value.Value, targetDefault *Block, cases ...*Case) *TermSwitch 
 
 // Succs returns the successor basic blocks of the terminator.
 func (term *TermSwitch) Succs() []*Block {
+	// Recompute the successors on every call; the branch targets may have been
+	// changed (e.g. through Operands) since the last call.
+	term.Successors = nil
 	// Cache successors if not present.
 	if term.Successors == nil {
 		succs := make([]*Block, 0, 1+len(term.Cases))
@@ -309,6 +318,9 @@ func NewIndirectBr(addr value.Value, validTargets ...*Block) *TermIndirectBr {
 
 // Succs returns the successor basic blocks of the terminator.
 func (term *TermIndirectBr) Succs() []*Block {
+	// Recompute the successors on every call; the branch targets may have been
+	// changed (e.g. through Operands) since the last call.
+	term.Successors = nil
 	// Cache successors if not present.
 	if term.Successors == nil {
 		// convert ValidTargets slice to []*ir.Block.
@@ -420,6 +432,9 @@ func (term *TermInvoke) Type() types.Type {
 
 // Succs returns the successor basic blocks of the terminator.
 func (term *TermInvoke) Succs() []*Block {
+	// Recompute the successors on every call; the branch targets may have been
+	// changed (e.g. through Operands) since the last call.
+	term.Successors = nil
 	// Cache successors if not present.
 	if term.Successors == nil {
 		term.Successors = []*Block{term.NormalRetTarget.(*Block), term.ExceptionRetTarget.(*Block)}
@@ -581,6 +596,9 @@ func (term *TermCallBr) Type() types.Type {
 
 // Succs returns the successor basic blocks of the terminator.
 func (term *TermCallBr) Succs() []*Block {
+	// Recompute the successors on every call; the branch targets may have been
+	// changed (e.g. through Operands) since the last call.
+	term.Successors = nil
 	// Cache successors if not present.
 	if term.Successors == nil {
 		term.Successors = []*Block{term.NormalRetTarget.(*Block)}
@@ -774,6 +792,9 @@ func (term *TermCatchSwitch) Type() types.Type {
 
 // Succs returns the successor basic blocks of the terminator.
 func (term *TermCatchSwitch) Succs() []*Block {
+	// Recompute the successors on every call; the branch targets may have been
+	// changed (e.g. through Operands) since the last call.
+	term.Successors = nil
 	// Cache successors if not present.
 	if term.Successors == nil {
 		// convert Handlers slice to []*ir.Block.
@@ -850,6 +871,9 @@ func NewCatchRet(catchPad *InstCatchPad, target *Block) *TermCatchRet {
 
 // Succs returns the successor basic blocks of the terminator.
 func (term *TermCatchRet) Succs() []*Block {
+	// Recompute the successors on every call; the branch targets may have been
+	// changed (e.g. through Operands) since the last call.
+	term.Successors = nil
 	// Cache successors if not present.
 	if term.Successors == nil {
 		term.Successors = []*Block{term.Target.(*Block)}
@@ -911,6 +935,9 @@ func NewCleanupRet(cleanupPad *InstCleanupPad, unwindTarget *Block) *TermCleanup
 
 // Succs returns the successor basic blocks of the terminator.
 func (term *TermCleanupRet) Succs() []*Block {
+	// Recompute the successors on every call; the branch targets may have been
+	// changed (e.g. through Operands) since the last call.
+	term.Successors = nil
 	// Cache successors if not present.
 	if term.Successors == nil {
 		if unwindTarget, ok := term.UnwindTarget.(*Block); ok {
